@@ -1402,6 +1402,10 @@ func getHashCode(n NodeNavigator) uint64 {
 	var sb bytes.Buffer
 	switch n.NodeType() {
 	case AttributeNode, TextNode, CommentNode:
+		// The kind of node comes first: an attribute a="a" and a text node "a"
+		// of the same element are two nodes.
+		sb.WriteString(strconv.Itoa(int(n.NodeType())))
+		sb.WriteByte('/')
 		// The name=value part is written with its length in front, so that a
 		// value ending in "-<digits>" cannot be taken for part of the path.
 		s := n.LocalName() + "=" + n.Value()
